@@ -18,6 +18,14 @@ Theorem C15_reencode : forall doc vs, CanonSeq doc vs ->
   decode doc = Ok vs /\ concat (map encode vs) = doc.
 Proof. exact reencode_canonical. Qed.
 
+(* hence distinct values never share an encoding (one value, or a whole sequence) *)
+Theorem C15_encode_injective : forall v1 v2, wf_value v1 = true -> wf_value v2 = true -> encode v1 = encode v2 -> v1 = v2.
+Proof. exact encode_injective. Qed.
+
+Theorem C15_encode_seq_injective : forall vs1 vs2, forallb wf_value vs1 = true -> forallb wf_value vs2 = true ->
+  concat (map encode vs1) = concat (map encode vs2) -> vs1 = vs2.
+Proof. exact encode_seq_injective. Qed.
+
 Check C15_decode_encode : forall vs, forallb wf_value vs = true -> decode (concat (map encode vs)) = Ok vs.
 Check C15_encode_canonical : forall v, wf_value v = true -> Canon (encode v) v.
 Check C15_reencode : forall doc vs, CanonSeq doc vs -> decode doc = Ok vs /\ concat (map encode vs) = doc.
@@ -31,3 +39,5 @@ Proof. vm_compute. reflexivity. Qed.
 Print Assumptions C15_decode_encode.
 Print Assumptions C15_encode_canonical.
 Print Assumptions C15_reencode.
+Print Assumptions C15_encode_injective.
+Print Assumptions C15_encode_seq_injective.
